@@ -606,6 +606,7 @@ func runOpenExisting(it *CrashItem, ks *sut.KeySet, workRoot string) (res OpenRe
 			if len(res.Sample) < 8 {
 				res.Sample = append(res.Sample, desc)
 			}
+			findingsBefore := len(res.Findings)
 			beforeSha, beforeLen, _ := sut.FileDigest(drive)
 			var oi *sut.Instance
 			var ierr error
@@ -670,7 +671,22 @@ func runOpenExisting(it *CrashItem, ks *sut.KeySet, workRoot string) (res OpenRe
 					payload := w.Chunk("c2")
 					var e1, e2 error
 					var got []byte
+					// rename an entry that was on the tape before opening (names in a rebuilt index are stored differently)
+					var renamed, renamedTo string
+					var e3 error
+					for _, p := range v.SortedPaths() {
+						if len(res.Findings) > findingsBefore {
+							break // the opened view already differs from the rebuild: keep the follow-up simple
+						}
+						if p != "/" && strings.Count(p, "/") == 1 {
+							renamed, renamedTo = p, p+"-moved"
+							break
+						}
+					}
 					ok, pan := sut.Watchdog(callTimeout, func() {
+						if renamed != "" {
+							e3 = oi.FS.Rename(renamed, renamedTo)
+						}
 						e1 = oi.FS.Mkdir("/zz-dir", 0o755)
 						var f interface {
 							Write([]byte) (int, error)
@@ -698,9 +714,40 @@ func runOpenExisting(it *CrashItem, ks *sut.KeySet, workRoot string) (res OpenRe
 						res.Dump = goroutineDump()
 						return
 					}
-					if pan != nil || e1 != nil || e2 != nil {
-						add(call, "%s: writing after opening failed: %v %v %v", desc, pan, e1, e2)
+					if pan != nil || e1 != nil || e2 != nil || e3 != nil {
+						add(call, "%s: writing after opening failed: %v %v %v %v", desc, pan, e1, e2, e3)
 					} else {
+						if renamed != "" {
+							// the view expected from now on: everything below `renamed` lives below `renamedTo`
+							moved := sut.View{}
+							for p, e := range v {
+								if p == renamed || strings.HasPrefix(p, renamed+"/") {
+									c := *e
+									c.Path = renamedTo + strings.TrimPrefix(p, renamed)
+									moved[c.Path] = &c
+								} else {
+									moved[p] = e
+								}
+							}
+							v = moved
+							if nv, err := sut.Walk(oi.FS, sut.ViewOpts{ReadContent: true, KeepData: true}); err != nil {
+								add(call, "%s: walking after a rename failed: %v", desc, err)
+							} else {
+								for p, old := range v {
+									n, ok := nv[p]
+									if !ok {
+										add(call, "%s: after renaming %s to %s entry %s is missing", desc, renamed, renamedTo, p)
+									} else if d := sameEntry(old, n); len(d) > 0 && p != renamedTo {
+										add(call, "%s: after renaming %s entry %s changed: %s", desc, renamed, p, strings.Join(d, ", "))
+									}
+								}
+								for p := range nv {
+									if _, ok := v[p]; !ok && !strings.HasPrefix(p, "/zz-dir") {
+										add(call, "%s: after renaming %s to %s unexpected entry %s", desc, renamed, renamedTo, p)
+									}
+								}
+							}
+						}
 						if !sameBytes(got, payload) {
 							add(call, "%s: a file written after opening reads back %s instead of %s", desc, describe(got), describe(payload))
 						}
